@@ -218,7 +218,7 @@ def k3(ctx):
     leaders = C.need("leader-union", C.leader_union_functions(crate))
     helper_ids = set(C.leader_helpers(crate))
     for site in C.leader_add_sites(crate):
-        b, lead = site["body"], site["leader"]
+        b, lead = mir.accessor_view(crate, site["body"]), site["leader"]
         aps = [lead.var_names.get(i) for i in range(1, lead.argc + 1) if lead.local_ty(i) == "types::AppliedId"]
         if len(aps) != 2:
             raise mir.AnchorMissing("leader union's two invocation parameters", str(aps))
@@ -242,9 +242,10 @@ def k3(ctx):
                           "in %s the permutation paired with a proof oriented %s -> %s is %s; by the invariant (proof proves c[id] = c[elem]) it must be %s.m.compose(&%s.m.inverse()). The two coincide only for involutions, so every 3-cycle symmetry gets a proof of the inverse permutation" % (
                               C.short(b.id), s_[1], t_[1], role_str(el), t_[1], s_[1]), where_of(b, bi, s.get("line")))
     # (2) self-symmetry derivation: (a, b, proof) = pc_congruence(..)  proves a -> b
-    for b in crate.fns():
-        if b.id in leaders or b.id in helper_ids:
+    for b0 in crate.fns():
+        if b0.id in leaders or b0.id in helper_ids:
             continue
+        b = mir.accessor_view(crate, b0)       # a `mk_proven_perm(elem, proof)` constructor helper is looked through
         for bi, si, s in b.statements():
             rv = s["rv"] if s["k"] == "assign" else None
             if rv and rv["k"] == "agg" and str(rv.get("adt", "")).endswith("perm::ProvenPerm") and not (b.file or "").endswith("wrapper/perm.rs"):
